@@ -291,18 +291,22 @@ def processLine (st : St) (line : String) : IO St := do
       let anyNaN := isNaNBits args[0]! || isNaNBits args[1]! || isNaNBits args[2]!
       if !anyNaN then
         if model != res[0]! then report "MISMATCH" st.mism line s!"model {model}"; st := { st with mism := st.mism + 1 }
-        -- spec: every component decodes to within one mantissa step of clamp(x, 0, 65408); the step is that
-        -- of the largest component: 2^(max(floor(log2 maxc), -16) + 1 - 9)   (exact in binary64)
+        -- spec: with w the exponent field glm produced, every component decodes to within half a mantissa step
+        -- 2^(w-24) (plus 2^-15 of a step for the binary32 rounding of `c/step + 0.5`) of clamp(x, 0, 65408), well
+        -- inside the "one mantissa step" of the property; and the word is normalised: the largest field is
+        -- ≥ 256 unless w = 0 (so the step is the smallest the format allows for that vector)
         let cl (b : Nat) : Float := let v := (f32 b).toFloat; if v < 0.0 then 0.0 else if v > 65408.0 then 65408.0 else v
-        let c := #[cl args[0]!, cl args[1]!, cl args[2]!]
-        let mc := if c[0]! > c[1]! then (if c[0]! > c[2]! then c[0]! else c[2]!) else (if c[1]! > c[2]! then c[1]! else c[2]!)
-        let e : Float := if mc < Float.exp2 (-16.0) then -16.0 else Float.floor (Float.log2 mc)
-        let step := Float.exp2 (e + 1.0 - 9.0)
         let w := Spec.field res[0]! 27 5
+        let step := Float.exp2 (w.toFloat - 24.0)
+        let mut mx := 0
         for k in [0:3] do
-          let d := (f32 (Spec.f3x9Decode (Spec.field res[0]! (9*k) 9) w)).toFloat
-          if !(Float.abs (d - c[k]!) ≤ step) then
-            report "SPECVIOL" st.spec line s!"component {k} decodes to {d}, more than one mantissa step ({step}) from {c[k]!}"; st := { st with spec := st.spec + 1 }
+          let fk := Spec.field res[0]! (9*k) 9
+          if fk > mx then mx := fk
+          let d := (f32 (Spec.f3x9Decode fk w)).toFloat
+          if !(Float.abs (d - cl args[k]!) ≤ step * (0.5 + Float.exp2 (-15.0))) then
+            report "SPECVIOL" st.spec line s!"component {k} decodes to {d}, more than half a mantissa step ({step}) from {cl args[k]!}"; st := { st with spec := st.spec + 1 }
+        if mx < 256 && w != 0 then
+          report "SPECVIOL" st.spec line s!"not normalised: largest field {mx} < 256 with exponent {w} > 0"; st := { st with spec := st.spec + 1 }
     else if kind == "r" then
       if res[1]! != 1 then
         report "SPECVIOL" st.spec line "unpack(pack(unpack(p))) differs from unpack(p)"; st := { st with spec := st.spec + 1 }
